@@ -320,7 +320,7 @@ func c16(args []string) int {
 		fmt.Println("c16 must run with TZ=UTC (TimeLocation nil means time.Local)")
 		return 2
 	}
-	total := f.N(30000, 1000000)
+	total := f.N(80000, 4000000)
 	x := &gen.Exec{}
 	var hits [9]map[string]int
 	stdParts := []string{"time", "level", "caller", "message"}
